@@ -48,6 +48,7 @@ func genC01(g gen.G) C01Case {
 	if g.Chance(25) {
 		o.Edits = 0
 	}
+	o.Schema.DepBoost = g.Chance(50)
 	c := C01Case{World: g.World(o)}
 	if g.Chance(30) {
 		p := g.Int(0, len(c.World.Paths)-1)
